@@ -55,16 +55,7 @@ INJECTORS = {
     "BrownianNoiseInjector": BrownianNoiseInjector,
 }
 CONTAINERS = ["nd_float", "nd_int", "df_float", "df_int", "df_mixed", "df_strlab"]
-# round-3 families: float32 data, boolean data (all-boolean array / boolean label column beside float features),
-# a frame with a non-default row index, a frame with duplicate labels on the columns that are NOT targeted
-NEW_CONTAINERS = ["nd_f32", "df_f32", "nd_bool", "df_boollab", "df_idx", "df_dup"]
-CONTAINERS = CONTAINERS + NEW_CONTAINERS
 INT_CONTAINERS = ("nd_int", "df_int")
-F32_CONTAINERS = ("nd_f32", "df_f32")
-# float32 data: a correct implementation may keep float32 throughout; every operation (mean, alpha + mean,
-# * shift_factor, + cell / walk increment, final store) rounds to 2^-24 relative to the magnitude of the numbers
-# involved, so cells are compared within 8 * 2^-24 of max(|cell|, |delta|, |result|) (float64 data: rel 1e-9 as before)
-F32_REL = 8 * 2.0 ** -24
 
 # ------------------------------------------------------------------ data sets
 COEF = [-2, 0, 2, -1, 1]
@@ -72,12 +63,8 @@ COEF = [-2, 0, 2, -1, 1]
 
 def col_kinds(ct, k, lc):
     """'f' float, 'i' int, 's' str per column position."""
-    if ct in ("nd_float", "df_float", "nd_f32", "df_f32", "df_idx", "df_dup"):
+    if ct in ("nd_float", "df_float"):
         return ["f"] * k
-    if ct == "nd_bool":
-        return ["b"] * k
-    if ct == "df_boollab":
-        return ["b" if j == lc else "f" for j in range(k)]
     if ct in ("nd_int", "df_int"):
         return ["i"] * k
     others = ["f", "s"] if ct == "df_mixed" else ["f", "i"]
@@ -92,9 +79,6 @@ def col_kinds(ct, k, lc):
 
 
 def cls_value(kind, token):
-    if kind == "b":
-        # boolean labels: tokens 0 / 1 are False / True; any other token is a value that never occurs in the data
-        return bool(token) if token in (0, 1) else int(token)
     if kind == "s":
         return "c%d" % token
     if kind == "f":
@@ -103,8 +87,6 @@ def cls_value(kind, token):
 
 
 def feature_cell(q, i, kind, pat):
-    if kind == "b":
-        return bool((i + q + pat) % 2) if pat == 0 else bool((i // 2 + q) % 2)
     if pat == 0:  # all rows distinct
         base = 10 * (q + 1) + i
         return {"i": base, "f": base + 0.5, "s": "s%d_%d" % (q, i)}[kind]
@@ -118,14 +100,6 @@ def col_labels(ct, k):
     if ct == "df_int":
         return [2, 0, 1][:k]  # integer labels that are NOT the positions
     return ["a", "b", "c"][:k]
-
-
-def row_index(ct, n):
-    """row labels of the frame: default except for df_idx (odd n: the positions in REVERSE order, so that a label
-    is a legal position of another row; even n: strings)"""
-    if ct != "df_idx":
-        return None
-    return list(range(n - 1, -1, -1)) if n % 2 else ["r%d" % (7 * i % 10) for i in range(n)]
 
 
 def build_data(spec):
@@ -142,25 +116,12 @@ def build_data(spec):
                 q += 1
         rows.append(r)
     labels = col_labels(ct, k)
-    if ct == "df_dup":
-        # only the label column carries a unique name (it is the one every call targets); the others share one
-        labels = ["y" if j == lc else "d" for j in range(k)]
     if ct == "nd_float":
         obj = np.array(rows, dtype=np.float64).reshape(n, k)
     elif ct == "nd_int":
         obj = np.array(rows, dtype=np.int64).reshape(n, k)
-    elif ct == "nd_f32":
-        obj = np.array(rows, dtype=np.float32).reshape(n, k)
-        if obj.astype(np.float64).tolist() != [[float(v) for v in r] for r in rows]:
-            raise HarnessError("HARNESS-CRASH: float32 data set is not exactly representable")
-    elif ct == "nd_bool":
-        obj = np.array(rows, dtype=np.bool_).reshape(n, k)
-    elif ct == "df_dup":
-        obj = pd.DataFrame(np.array(rows, dtype=np.float64).reshape(n, k), columns=labels)
     else:
-        obj = pd.DataFrame({labels[j]: [r[j] for r in rows] for j in range(k)}, columns=labels, index=row_index(ct, n))
-        if ct == "df_f32":
-            obj = obj.astype(np.float32)
+        obj = pd.DataFrame({labels[j]: [r[j] for r in rows] for j in range(k)}, columns=labels)
     return obj, rows, labels, kinds
 
 
